@@ -113,7 +113,7 @@ func hashCommitShape(P *Program, R *Report, rule string) {
 	R.decide(rule, key+":whole-digest", "the returned integer is SetBytes of the whole 32-byte digest (no truncation)", wholeOK, wholeDetail, P.Pos(fn.Pos()))
 	retOK := setBytes != nil
 	for _, r := range returnsOf(fn) {
-		if setBytes == nil || len(r.Results) != 1 || (siteOf(origin(r.Results[0])) != siteOf(setBytes) && siteOf(r.Results[0]) != siteOf(setBytes)) {
+		if setBytes == nil || retCount(r) != 1 || (siteOf(origin(retValue(r, 0))) != siteOf(setBytes) && siteOf(retValue(r, 0)) != siteOf(setBytes)) {
 			retOK = false
 		}
 	}
@@ -282,7 +282,7 @@ func init() {
 				R.decide("C15.c", "common.IntHashSha256:shape", "SetBytes of the whole SHA-256 digest of exactly the input (streaming or one-shot form)", ok, "", P.Pos(fn.Pos()))
 				okRet := set != nil
 				for _, r := range returnsOf(fn) {
-					if set == nil || siteOf(r.Results[0]) != siteOf(set) {
+					if set == nil || siteOf(retValue(r, 0)) != siteOf(set) {
 						okRet = false
 					}
 				}
@@ -492,7 +492,7 @@ func getHashNumberRule(P *Program, R *Report) {
 			// res.Add(res, cur)
 			if siteOf(callArgs(c)[0]) == siteOf(callArgs(c)[1]) && shiftedSite != nil && siteOf(callArgs(c)[2]) == shiftedSite {
 				for _, r := range returnsOf(fn) {
-					if siteOf(r.Results[0]) == siteOf(callArgs(c)[0]) {
+					if siteOf(retValue(r, 0)) == siteOf(callArgs(c)[0]) {
 						okAdd = true
 					}
 				}
